@@ -450,23 +450,33 @@ C14arrow_OK(ev) ==
 
 \* ev.bullet = [ch (star, o, O), pos ("start" | "end" | "mid"), len, k, n, dir ("h": a horizontal run, "v": a vertical
 \* run), body (the run's character: a dash, a tilde, a box-drawing stroke ... / a bar, a colon, an exclamation mark ...)]
+BulletCol(b) == CASE b.pos = "start" -> <<b.ch>> \o Rep(b.body, b.len)
+                  [] b.pos = "end" -> Rep(b.body, b.len) \o <<b.ch>>
+                  [] OTHER -> Rep(b.body, b.len) \o <<b.ch>> \o Rep(b.body, b.len)
+\* dir "h": one row; "v": one column; "b": one cell further right on every row (a run of backslashes); "s": one cell
+\* further left on every row (a run of slashes)
 BulletRows(b) ==
   [i \in 1..b.n |-> <<>>] \o
-  (IF b.dir = "h"
-   THEN << Rep(SP, b.k) \o (CASE b.pos = "start" -> <<b.ch>> \o Rep(b.body, b.len)
-                              [] b.pos = "end" -> Rep(b.body, b.len) \o <<b.ch>>
-                              [] OTHER -> Rep(b.body, b.len) \o <<b.ch>> \o Rep(b.body, b.len)) >>
-   ELSE LET col == CASE b.pos = "start" -> <<b.ch>> \o Rep(b.body, b.len)
-                     [] b.pos = "end" -> Rep(b.body, b.len) \o <<b.ch>>
-                     [] OTHER -> Rep(b.body, b.len) \o <<b.ch>> \o Rep(b.body, b.len) IN
-        [i \in 1..Len(col) |-> Rep(SP, b.k) \o <<col[i]>>])
+  (LET col == BulletCol(b) IN
+   CASE b.dir = "h" -> << Rep(SP, b.k) \o col >>
+     [] b.dir = "v" -> [i \in 1..Len(col) |-> Rep(SP, b.k) \o <<col[i]>>]
+     [] b.dir = "b" -> [i \in 1..Len(col) |-> Rep(SP, b.k + i - 1) \o <<col[i]>>]
+     [] OTHER -> [i \in 1..Len(col) |-> Rep(SP, b.k + Len(col) - i) \o <<col[i]>>])
 DashedBody(c) == c \in {126, 58, 33, 9476, 9478, 9480, 9482}
 BulletIdx(b) == IF b.pos = "start" THEN 0 ELSE b.len         \* position of the bullet along the run (0-based)
 MarkerClass(ch) == IF ch = 42 THEN "marked_circle" ELSE IF ch = 111 THEN "marked_open_circle" ELSE "marked_big_open_circle"
 C14bullet_OK(ev) ==
   LET b == ev.bullet
-      centre == IF b.dir = "h" THEN <<((b.k + BulletIdx(b)) * CW + 4) * MILLI, (b.n * CH + 8) * MILLI>>
-                ELSE <<(b.k * CW + 4) * MILLI, ((b.n + BulletIdx(b)) * CH + 8) * MILLI>>
+      idx == BulletIdx(b)
+      total == Len(BulletCol(b))
+      centre == CASE b.dir = "h" -> <<((b.k + idx) * CW + 4) * MILLI, (b.n * CH + 8) * MILLI>>
+                  [] b.dir = "v" -> <<(b.k * CW + 4) * MILLI, ((b.n + idx) * CH + 8) * MILLI>>
+                  [] b.dir = "b" -> <<((b.k + idx) * CW + 4) * MILLI, ((b.n + idx) * CH + 8) * MILLI>>
+                  [] OTHER -> <<((b.k + total - 1 - idx) * CW + 4) * MILLI, ((b.n + idx) * CH + 8) * MILLI>>
+      \* direction of the run's axis
+      dx == CASE b.dir = "h" -> 1 [] b.dir = "v" -> 0 [] b.dir = "b" -> CW [] OTHER -> 0 - CW
+      dy == CASE b.dir = "h" -> 0 [] b.dir = "v" -> 1 [] OTHER -> CH
+      onAxis(x, y) == (x - centre[1]) * dy - (y - centre[2]) * dx = 0
       marked(e) == \/ (HasCls(e, "end_" \o MarkerClass(b.ch)) /\ <<e.n[3], e.n[4]>> = centre)
                    \/ (HasCls(e, "start_" \o MarkerClass(b.ch)) /\ <<e.n[1], e.n[2]>> = centre) IN
   /\ ev.doc.wf = 1 /\ ev.rows = BulletRows(b)
@@ -475,16 +485,17 @@ C14bullet_OK(ev) ==
   /\ \A i \in Idx(ev.doc) : IsLine(ev.doc.elems[i]) \/ IsText(ev.doc.elems[i])
   /\ \A i \in OfKind(ev.doc, "text") : b.ch \notin RangeOf(ev.doc.elems[i].s)        \* the bullet is not shown as text
   /\ \A i \in Idx(ev.doc) : IsLine(ev.doc.elems[i]) =>                               \* every line lies on the run's axis
-        IF b.dir = "h" THEN ev.doc.elems[i].n[2] = centre[2] /\ ev.doc.elems[i].n[4] = centre[2]
-        ELSE ev.doc.elems[i].n[1] = centre[1] /\ ev.doc.elems[i].n[3] = centre[1]
+        onAxis(ev.doc.elems[i].n[1], ev.doc.elems[i].n[2]) /\ onAxis(ev.doc.elems[i].n[3], ev.doc.elems[i].n[4])
 
-\* ev.outline = [k, n, w, h, tl, tr, bl, br]: a rounded outline (interior w x h) with a two-dash stub on
+\* ev.outline = [k, n, w, h, tl, tr, bl, br, off]: a rounded outline (interior w x h) with a two-dash stub on
 \* the right side of its first interior row, so that it is not endorsed as a rect
+\* o.off = 0: the corner characters stand in the sides' columns; o.off = 1: the offset form, corner characters one
+\* column inside and the sides starting a row lower (a larger radius)
 OutlineRows(o) ==
   [i \in 1..o.n |-> <<>>] \o
-  << Rep(SP, o.k) \o <<o.tl>> \o Rep(DASH, o.w) \o <<o.tr>> >> \o
+  << Rep(SP, o.k + o.off) \o <<o.tl>> \o Rep(DASH, o.w - 2 * o.off) \o <<o.tr>> >> \o
   [i \in 1..o.h |-> Rep(SP, o.k) \o <<BAR>> \o Rep(SP, o.w) \o <<BAR>> \o (IF i = 1 THEN <<DASH, DASH>> ELSE <<>>)] \o
-  << Rep(SP, o.k) \o <<o.bl>> \o Rep(DASH, o.w) \o <<o.br>> >>
+  << Rep(SP, o.k + o.off) \o <<o.bl>> \o Rep(DASH, o.w - 2 * o.off) \o <<o.br>> >>
 ArcP1(e) == <<E8(e.n[1]), E8(e.n[2])>>
 ArcP2(e) == <<E8(e.n[5]), E8(e.n[6])>>
 \* for a quarter arc the centre is one of the two "corner completions" of its chord; the sweep flag says
